@@ -101,7 +101,7 @@ CaseForms == [ select |-> <<"SELECT", "Select">>, from |-> <<"FROM", "From">>, w
                into |-> <<"INTO", "Into">>, group |-> <<"GROUP", "Group">>, desc |-> <<"DESC", "Desc">>, asc |-> <<"ASC", "Asc">>,
                between |-> <<"BETWEEN", "Between">>, like |-> <<"LIKE", "Like">>, name |-> <<"NAME", "Name">>, size |-> <<"SIZE", "Size">>,
                path |-> <<"PATH", "Path">>, ext |-> <<"EXT", "Ext">>, dir |-> <<"DIR", "Dir">>, uid |-> <<"UID", "Uid">>, gte |-> <<"GTE", "Gte">>,
-               eq |-> <<"EQ", "Eq">>, rx |-> <<"RX", "Rx">>, depth |-> <<"DEPTH", "Depth">>, mindepth |-> <<"MINDEPTH", "MinDepth">>, dfs |-> <<"DFS", "Dfs">>,
+               eq |-> <<"EQ", "Eq">>, rx |-> <<"RX", "Rx">>, depth |-> <<"DEPTH", "Depth">>, mindepth |-> <<"MINDEPTH", "MinDepth">>, dfs |-> <<"DFS", "Dfs">>, bfs |-> <<"BFS", "Bfs">>, maxdepth |-> <<"MAXDEPTH", "MaxDepth">>, sym |-> <<"SYM", "Sym">>,
                symlinks |-> <<"SYMLINKS", "Symlinks">>, archives |-> <<"ARCHIVES", "Archives">>, plus |-> <<"PLUS", "Plus">>, mul |-> <<"MUL", "Mul">>,
                json |-> <<"JSON", "Json">>, csv |-> <<"CSV", "Csv">>, is_dir |-> <<"IS_DIR", "Is_Dir">>, is_file |-> <<"IS_FILE", "Is_File">>,
                hardlinks |-> <<"HARDLINKS", "HardLinks">>, fsize |-> <<"FSIZE", "FSize">>, notlike |-> <<"NOTLIKE", "NotLike">>, regexp |-> <<"REGEXP", "RegExp">> ]
